@@ -86,6 +86,45 @@ def replay_chunk(args):
     return t
 
 
+def default_reference_cases(recs):
+    """estimators built WITHOUT a dip angle use the reference field they compute themselves (the WMM field of Munich, which has an
+    East component): measurements are made from the object's own reference attributes, the attitude must still be recovered"""
+    from ahrs import filters as F
+    t = Tally()
+    makers = [
+        ("Davenport()[default reference]", "free", lambda: F.Davenport(), lambda o: (o.g_q, o.m_q), lambda o, a, m: o.estimate(a, m)),
+        ("QUEST()[default reference]", "closed", lambda: F.QUEST(), lambda o: (o.g_q, o.m_q), lambda o, a, m: o.estimate(a, m)),
+        ("FLAE(eig)[default reference]", "free", lambda: F.FLAE(), lambda o: (o.ref[0], o.ref[1]), lambda o, a, m: o.estimate(a, m, method="eig")),
+        ("FLAE(newton)[default reference]", "closed", lambda: F.FLAE(), lambda o: (o.ref[0], o.ref[1]), lambda o, a, m: o.estimate(a, m, method="newton")),
+    ]
+    for rec in recs:
+        u = tuple(rec["u"])
+        Rw = core.g_rot(u)
+        for name, cls, make, refs, est in makers:
+            if cls == "closed" and not rec["gp"]:
+                continue
+            t.calls += 1
+            t.keys.add((name, u))
+            obj = make()
+            g_ref, m_ref = [np.array(x, dtype=float) for x in refs(obj)]
+            acc = Rw.T @ (g_ref / np.linalg.norm(g_ref)) * 9.81
+            mag = Rw.T @ (m_ref / np.linalg.norm(m_ref)) * 48.0
+            o = core.outcome(lambda: est(obj, acc.copy(), mag.copy()))
+            case = {"route": name, "u": u, "gravity_ref": g_ref, "magnetic_ref": m_ref}
+            if o[0] != "ok":
+                t.fail("C04|%s|raises-%s|%s" % (name, o[1], classify(rec)), dict(case, err=o[2]))
+                continue
+            Rm, bad = SW.as_matrix(o[1])
+            if bad:
+                t.fail("C04|%s|%s|%s" % (name, bad, classify(rec)), dict(case, got=o[1]))
+                continue
+            dd = maxdiff(Rm, Rw)
+            t.resid(name, dd)
+            if not dd <= 1e-7:
+                t.fail("C04|%s|%s|%s" % (name, "off-by<1e-3" if dd < 1e-3 else "wrong-attitude", classify(rec)), dict(case, got=Rm, want=Rw, diff=dd))
+    return t
+
+
 def oleq_cases(args):
     """OLEQ against its as-built model (spec/Oleq.tla): same seed => same start vector => the code's output is the model's"""
     recs, wrecs = args
@@ -161,6 +200,10 @@ def run(chk, only=None):
     with mp.get_context("fork").Pool(16) as pool:
         tallies = pool.map(replay_chunk, chunks)
     core.merge(chk, tallies)
+    seen_u = {}
+    for r in recs:
+        seen_u.setdefault(tuple(r["u"]), r)
+    core.merge(chk, core.pmap(default_reference_cases, list(seen_u.values())))
     # OLEQ against its as-built model
     r1 = tlc.run_tlc("MC_Oleq", core.spec_cfg("MC_Oleq_laws"), timeout=1200)
     chk.add_tlc("Oleq[W = L(r)^T R(b); symmetric involution; fixed point; unique direction]", r1)
